@@ -408,18 +408,253 @@ Section P.
     rewrite gvb_array. cbv zeta. set (ps := gparts e l 0) in *. set (data := concat ps) in *.
     rewrite fixed_sized_spec.
     destruct (gis_fixed el) eqn:Hfx.
-    - rewrite (reframe st _ _ el d' _ _ eq_refl eq_refl). reflexivity.
+    - rewrite (reframe st _ _ el d' (SArray el) _ (eq_sym Hs) eq_refl). reflexivity.
     - rewrite app_nil_r. replace (g_written st + len p + len data - (g_written st + len p)) with (len data) by lia.
       rewrite gvb_array in Hsmall. cbv zeta in Hsmall. fold ps data in Hsmall. rewrite Hfx in Hsmall. rewrite len_app in Hsmall.
       destruct (N.eqb_spec (len data) 0) as [H0|H0].
       + (* nothing was written: only legitimate for the empty array *)
         destruct l as [|x r].
-        * cbn. rewrite (reframe st _ _ el d' _ _ eq_refl eq_refl). reflexivity.
+        * cbn. rewrite (reframe st _ _ el d' (SArray el) _ (eq_sym Hs) eq_refl). reflexivity.
         * exfalso. cbn [node_empty_offsets] in Hne. rewrite Hfx in Hne. cbn [negb andb] in Hne.
           fold ps data in Hne. rewrite H0 in Hne. discriminate.
       + rewrite frev_involutive.
-        rewrite (reframe st _ _ el d' _ _ eq_refl eq_refl).
+        rewrite (reframe st _ _ el d' (SArray el) _ (eq_sym Hs) eq_refl).
         rewrite write_all_framing by (apply framing_small; lia).
         rewrite gwr_gwr. now rewrite <- app_assoc.
+  Qed.
+
+  (* ---------- tuples ---------- *)
+  (* ends of the variable-size members, in member order (what push_front accumulates, reversed) *)
+  Fixpoint var_ends (sigs : list sig) (ends : list N) : list N :=
+    match sigs, ends with
+    | s :: sr, en :: er => (if gis_fixed s then [] else [en]) ++ var_ends sr er
+    | _, _ => []
+    end.
+
+  Lemma gset_vsign_none st b : g_vsign st = None -> gset_vsign (gwr st b) None = gwr st b.
+  Proof. intros H. destruct st; cbn in *; subst; reflexivity. Qed.
+
+  Lemma fields_ok l : Forall good l -> forall st psigs start o A,
+    g_e st = e -> forallb gwf l = true -> forallb pre l = true ->
+    g_sig st = SStruct (psigs ++ map gsig l) -> g_vsign st = None -> dep_ok (g_dep st) ->
+    forallb (gdepth_ok (d_struct (g_dep st)) (d_array (g_dep st)) (dtot (g_dep st))) l = true ->
+    start <= g_written st ->
+    A <> 0 -> (g_pos0 st + start) mod A = 0 -> (forall x, In x l -> A mod galign (gsig x) = 0) ->
+    ser_fields (map sval_of l) (length psigs) start (Some o) st =
+      Ok (gwr st (concat (gparts e l (g_written st - start))),
+          Some (rev (var_ends (map gsig l) (ends_from (g_written st - start) (gparts e l (g_written st - start)))) ++ o)).
+  Proof.
+    induction 1 as [|x l Hx Hl IH]; intros st psigs start o A He Hw Hp Hs Hv Hd Hf Hst HA Hal Hdiv.
+    - cbn [map ser_fields gparts concat ends_from var_ends rev app]. now rewrite gwr_nil.
+    - cbn [forallb] in Hw, Hp, Hf.
+      apply andb_true_iff in Hw as [Hwx Hw]. apply andb_true_iff in Hp as [Hpx Hp]. apply andb_true_iff in Hf as [Hfx Hf].
+      cbn [map ser_fields]. unfold gfield_sig. rewrite Hs.
+      cbn [map]. rewrite nth_error_app2 by lia. rewrite Nat.sub_diag. cbn [nth_error bind].
+      set (sub := gsub_of st (gsig x)).
+      rewrite (Hx sub); subst sub; unfold gsub_of; autorewrite with gst; try assumption; try reflexivity.
+      cbn [bind].
+      replace (gabs st) with ((g_pos0 st + start) + (g_written st - start)) by (unfold gabs; lia).
+      assert (Hax : (g_pos0 st + start) mod galign (gsig x) = 0).
+      { apply (mod_trans _ A); try assumption; [apply galign_nz|]. apply Hdiv. now left. }
+      rewrite (pad_shift _ _ _ (galign_nz _) Hax).
+      set (off := g_written st - start). set (b := pad off (galign (gsig x)) ++ gvb e x).
+      change (gset_vsign (gset_sig st (gsig x)) None) with (gsub_of st (gsig x)). rewrite gback_gwr.
+      rewrite (gset_vsign_none _ _ Hv).
+      unfold gfield_done. autorewrite with gst. rewrite Hs. rewrite fixed_sized_spec.
+      replace (S (length psigs)) with (length (psigs ++ [gsig x])) by (rewrite app_length; cbn; lia).
+      assert (Hs2 : g_sig (gwr st b) = SStruct ((psigs ++ [gsig x]) ++ map gsig l)).
+      { autorewrite with gst. rewrite Hs. now rewrite <- app_assoc. }
+      destruct (gis_fixed (gsig x)) eqn:Hfixx.
+      + rewrite (IH (gwr st b) (psigs ++ [gsig x]) start o A); autorewrite with gst; try assumption.
+        2:{ lia. }
+        2:{ intros y Hy. apply Hdiv. now right. }
+        replace (g_written st + len b - start) with (off + len b) by (subst off; lia).
+        cbn [gparts concat ends_from var_ends]. fold b. rewrite Hfixx. cbn [app]. now rewrite gwr_gwr.
+      + rewrite (IH (gwr st b) (psigs ++ [gsig x]) start _ A); autorewrite with gst; try assumption.
+        2:{ lia. }
+        2:{ intros y Hy. apply Hdiv. now right. }
+        replace (g_written st + len b - start) with (off + len b) by (subst off; lia).
+        cbn [gparts concat ends_from var_ends]. fold b. rewrite Hfixx. cbn [app rev]. rewrite gwr_gwr.
+        now rewrite <- app_assoc.
+  Qed.
+
+  (* a value of a fixed-size type occupies at least one byte *)
+  Lemma len_gparts_first x l off : len (gvb e x) <= len (concat (gparts e (x :: l) off)).
+  Proof. cbn [gparts concat]. rewrite !len_app. lia. Qed.
+
+  Lemma fixed_nonempty : forall v, gwf v = true -> gis_fixed (gsig v) = true -> 1 <= len (gvb e v).
+  Proof.
+    induction v using gval_ind'; intros Hw Hfx; try discriminate Hfx;
+      try (cbn [gvb]; rewrite ?len_enc; cbn; lia).
+    - (* tuple *)
+      rewrite gvb_struct. cbn [gwf] in Hw. apply andb_true_iff in Hw as [Hne Hw].
+      destruct l as [|x l]; [discriminate|]. cbn [gsig map] in Hfx.
+      change (gis_fixed (SStruct (gsig x :: map gsig l))) with (gis_fixed (gsig x) && forallb gis_fixed (map gsig l)) in Hfx.
+      unfold tuple_bytes. cbn [map]. change (forallb gis_fixed (gsig x :: map gsig l)) with (gis_fixed (gsig x) && forallb gis_fixed (map gsig l)).
+      rewrite Hfx. apply andb_true_iff in Hfx as [Hfx _]. cbn [forallb] in Hw. apply andb_true_iff in Hw as [Hwx _].
+      inversion H as [|? ? Hx _]; subst. specialize (Hx Hwx Hfx).
+      rewrite len_app. pose proof (len_gparts_first x l 0). lia.
+  Qed.
+
+  Lemma var_ends_fixed sigs ends : forallb gis_fixed sigs = true -> var_ends sigs ends = [].
+  Proof.
+    revert ends. induction sigs as [|s sr IH]; intros ends H; [reflexivity|]. destruct ends as [|en er]; [reflexivity|].
+    cbn [forallb] in H. apply andb_true_iff in H as [H1 H2]. cbn [var_ends]. rewrite H1. cbn [app]. now apply IH.
+  Qed.
+  Lemma tuple_offsets_fixed sigs ends : forallb gis_fixed sigs = true -> tuple_offsets sigs ends = [].
+  Proof.
+    revert ends. induction sigs as [|s sr IH]; intros ends H; [reflexivity|].
+    cbn [forallb] in H. apply andb_true_iff in H as [H1 H2].
+    destruct sr as [|s' sr]; [reflexivity|]. destruct ends as [|en er]; [reflexivity|].
+    cbn [tuple_offsets]. rewrite H1. cbn [app]. now apply IH.
+  Qed.
+
+  Lemma var_ends_split sigs ends : sigs <> [] -> length sigs = length ends ->
+    var_ends sigs ends = tuple_offsets sigs ends ++ (if gis_fixed (last sigs SUnit) then [] else [last ends 0]).
+  Proof.
+    revert ends. induction sigs as [|s sr IH]; intros ends Hne Hlen; [congruence|].
+    destruct ends as [|en er]; [discriminate|]. cbn [length] in Hlen.
+    destruct sr as [|s' sr].
+    - destruct er; [|discriminate]. cbn. now rewrite app_nil_r.
+    - destruct er as [|en' er]; [discriminate|].
+      change (var_ends (s :: s' :: sr) (en :: en' :: er)) with ((if gis_fixed s then [] else [en]) ++ var_ends (s' :: sr) (en' :: er)).
+      change (tuple_offsets (s :: s' :: sr) (en :: en' :: er)) with ((if gis_fixed s then [] else [en]) ++ tuple_offsets (s' :: sr) (en' :: er)).
+      rewrite IH by (discriminate || (cbn [length] in *; lia)).
+      change (last (s :: s' :: sr) SUnit) with (last (s' :: sr) SUnit).
+      change (last (en :: en' :: er) 0) with (last (en' :: er) 0).
+      now rewrite app_assoc.
+  Qed.
+
+  Lemma last_end ps off : ps <> [] -> last (ends_from off ps) 0 = off + len (concat ps).
+  Proof.
+    revert off. induction ps as [|b r IH]; intros off Hne; [congruence|].
+    destruct r as [|b' r].
+    - cbn. rewrite app_nil_r. reflexivity.
+    - change (ends_from off (b :: b' :: r)) with ((off + len b) :: ends_from (off + len b) (b' :: r)).
+      change (last ((off + len b) :: ends_from (off + len b) (b' :: r)) 0) with (last (ends_from (off + len b) (b' :: r)) 0).
+      { rewrite IH by discriminate. cbn [concat]. rewrite !len_app. lia. }
+  Qed.
+
+  Lemma len_concat_last (ps : list bytes) : len (last ps []) <= len (concat ps).
+  Proof.
+    induction ps as [|b r IH]; [cbn; lia|]. destruct r as [|b' r].
+    - cbn. rewrite app_nil_r. lia.
+    - change (last (b :: b' :: r) []) with (last (b' :: r) []). cbn [concat] in *. rewrite len_app. lia.
+  Qed.
+
+  Lemma tuple_offsets_lt sigs ps off x : length sigs = length ps -> 1 <= len (last ps []) ->
+    In x (tuple_offsets sigs (ends_from off ps)) -> x < off + len (concat ps).
+  Proof.
+    revert sigs off. induction ps as [|b r IH]; intros sigs off Hlen Hlast Hin.
+    - destruct sigs as [|s [|s' sr]]; cbn in Hin; tauto.
+    - destruct sigs as [|s sr]; [discriminate|]. destruct sr as [|s' sr]; [cbn in Hin; tauto|].
+      destruct r as [|b' r]; [discriminate|].
+      change (ends_from off (b :: b' :: r)) with ((off + len b) :: ends_from (off + len b) (b' :: r)) in Hin.
+      change (tuple_offsets (s :: s' :: sr) ((off + len b) :: ends_from (off + len b) (b' :: r)))
+        with ((if gis_fixed s then [] else [off + len b]) ++ tuple_offsets (s' :: sr) (ends_from (off + len b) (b' :: r))) in Hin.
+      change (last (b :: b' :: r) []) with (last (b' :: r) []) in Hlast.
+      pose proof (len_concat_last (b' :: r)) as Hc.
+      change (concat (b :: b' :: r)) with (b ++ concat (b' :: r)). rewrite len_app.
+      apply in_app_or in Hin as [Hin|Hin].
+      + destruct (gis_fixed s); [destruct Hin|]. destruct Hin as [Hx|[]]. clear IH Hlen. subst x. unfold bytes in *. lia.
+      + apply (IH (s' :: sr) (off + len b)) in Hin; [lia| cbn [length] in *; lia | assumption].
+  Qed.
+
+  Lemma last_map {A B} (f : A -> B) l d d' : l <> [] -> last (map f l) d' = f (last l d).
+  Proof.
+    induction l as [|x r IH]; intros Hne; [congruence|]. destruct r as [|y r]; [reflexivity|].
+    change (last (map f (x :: y :: r)) d') with (last (map f (y :: r)) d').
+    change (last (x :: y :: r) d) with (last (y :: r) d). apply IH. discriminate.
+  Qed.
+
+  Lemma gparts_last_nonempty l off : l <> [] -> forallb gwf l = true ->
+    gis_fixed (gsig (last l (GU8 0))) = true -> 1 <= len (last (gparts e l off) []).
+  Proof.
+    revert off. induction l as [|x r IH]; intros off Hne Hw Hfx; [congruence|].
+    cbn [forallb] in Hw. apply andb_true_iff in Hw as [Hwx Hw].
+    destruct r as [|y r].
+    - cbn [gparts last] in *. rewrite len_app. pose proof (fixed_nonempty x Hwx Hfx). lia.
+    - change (last (x :: y :: r) (GU8 0)) with (last (y :: r) (GU8 0)) in Hfx.
+      cbn [gparts]. cbn [gparts] in IH.
+      match goal with |- context [last (?a :: ?b :: ?c) []] => change (last (a :: b :: c) []) with (last (b :: c) []) end.
+      apply (IH _ ltac:(discriminate) Hw Hfx).
+  Qed.
+
+  Lemma length_gparts l off : length (gparts e l off) = length l.
+  Proof. revert off. induction l as [|x r IH]; intros off; cbn [gparts length]; [reflexivity|]. now rewrite IH. Qed.
+
+  Lemma good_struct l : Forall good l -> good (GStruct l).
+  Proof.
+    intros HF st He Hw Hp Hs Hv Hd Hf. cbn [sval_of]. rewrite gser_tuple.
+    pose proof (pre_align _ Hp Hw) as Hal. cbn [gsig] in Hal, Hs |- *.
+    destruct (pre_node _ Hp) as (Hnb & Hnt & Hne & _ & Hsmall).
+    cbn [gwf] in Hw. apply andb_true_iff in Hw as [Hnel Hwl].
+    assert (Hl : l <> []) by (destruct l; [discriminate|discriminate]).
+    unfold pre in Hp. rewrite all_nodes_struct in Hp. apply andb_true_iff in Hp as [_ Hpl].
+    unfold gfits in Hf. cbn [gdepth_ok] in Hf. apply andb_true_iff in Hf as [Hf Hfl]. apply andb_true_iff in Hf as [Hf1 Hf2].
+    apply N.leb_le in Hf1, Hf2.
+    destruct (inc_struct_good _ Hd Hf1 Hf2) as (d' & Hinc & Hd' & Hs' & Ha' & Ht').
+    set (sigs := map gsig l) in *.
+    rewrite galign_struct in *. set (A := galigns sigs) in *.
+    assert (HA : A <> 0) by apply galigns_nz.
+    unfold gstruct_begin. rewrite gpadded_gwr. rewrite Hs, Hal. autorewrite with gst. rewrite Hs, Hal.
+    rewrite gpadded_gwr. autorewrite with gst.
+    set (p := pad (gabs st) A).
+    assert (HpA : (gabs st + len p) mod A = 0) by (subst p; rewrite len_pad; now apply padn_after).
+    rewrite (pad_aligned (gabs st + len p) A) by assumption. rewrite gwr_nil, len_nil, N.add_0_r.
+    rewrite Hinc. cbn [bind].
+    set (st1 := gset_dep (gwr st p) d').
+    change 0%nat with (length (@nil sig)).
+    rewrite (fields_ok l HF st1 [] (g_written st + len p) [] A); subst st1; autorewrite with gst; try assumption; try reflexivity.
+    2:{ rewrite Hs', Ha', Ht'. assumption. }
+    2:{ replace (g_pos0 st + (g_written st + len p)) with (gabs st + len p) by (unfold gabs; lia). assumption. }
+    2:{ intros x Hx. apply pow2_div; [apply galigns_pow2|apply galign_pow2|]. apply galigns_ge. subst sigs. now apply in_map. }
+    rewrite N.sub_diag. cbn [bind]. unfold gstruct_end. autorewrite with gst.
+    replace (g_written st + len p + len (concat (gparts e l 0)) - (g_written st + len p)) with (len (concat (gparts e l 0))) by lia.
+    rewrite gvb_struct. fold sigs A. unfold tuple_bytes.
+    rewrite gvb_struct in Hsmall. fold sigs A in Hsmall. unfold tuple_bytes in Hsmall.
+    set (ps := gparts e l 0) in *. set (data := concat ps) in *. set (ends := ends_from 0 ps) in *.
+    assert (Hlen : length sigs = length ends).
+    { subst sigs ends ps. now rewrite map_length, length_ends_from, length_gparts. }
+    assert (Hsne : sigs <> []) by (subst sigs; destruct l; [congruence|discriminate]).
+    destruct sigs as [|s0 sr] eqn:Hsigs; [congruence|]. rewrite <- Hsigs in *.
+    assert (Hfin : forall b', gset_dep (gwr (gset_dep (gwr st p) d') b') (g_dep st) = gwr st (p ++ b')).
+    { intros b'. autorewrite with gpush. f_equal. destruct st; reflexivity. }
+    rewrite app_nil_r.
+    cbn [node_tail] in Hnt. fold sigs ps data A in Hnt.
+    cbn [node_empty_offsets] in Hne. fold sigs ps data ends in Hne.
+    destruct (forallb gis_fixed sigs) eqn:Hall.
+    - (* all members fixed-size: no offsets; the format's final padding is empty outside the tail_padding class *)
+      cbn [andb] in Hnt. apply negb_false_iff, N.eqb_eq in Hnt.
+      unfold pad. rewrite Hnt. cbn [zeros repeat N.to_nat]. rewrite app_nil_r.
+      rewrite var_ends_fixed by assumption. cbn [rev].
+      destruct (len data =? 0); [now rewrite Hfin|]. unfold write_all. now rewrite Hfin.
+    - cbn [negb andb] in Hne.
+      destruct (N.eqb_spec (len data) 0) as [H0|H0].
+      + (* nothing written: no offsets are due outside the empty_offsets class *)
+        cbn [andb] in Hne. apply negb_false_iff, Nat.eqb_eq in Hne.
+        destruct (tuple_offsets sigs ends) eqn:Hto; [|discriminate]. cbn [rev]. unfold framing, offs_enc. cbn [map concat].
+        now rewrite Hfin.
+      + rewrite (var_ends_split sigs ends Hsne Hlen).
+        assert (Hle : last ends 0 = len data).
+        { subst ends data. rewrite last_end; [lia|]. subst ps. destruct l; [congruence|discriminate]. }
+        rewrite len_app in Hsmall.
+        assert (Hsm : len data + N.of_nat (length (rev (tuple_offsets sigs ends))) < 2 ^ 60) by (apply framing_small; lia).
+        destruct (gis_fixed (last sigs SUnit)) eqn:Hlastfx.
+        * rewrite app_nil_r.
+          assert (Hlast1 : 1 <= len (last ps [])).
+          { subst ps. apply gparts_last_nonempty; try assumption.
+            subst sigs. rewrite (last_map gsig l (GU8 0) SUnit Hl) in Hlastfx. assumption. }
+          destruct (rev (tuple_offsets sigs ends)) as [|front rest] eqn:Hrev.
+          -- unfold write_all. rewrite Hfin. unfold framing, offs_enc. reflexivity.
+          -- assert (Hin : In front (tuple_offsets sigs ends)).
+             { apply in_rev. rewrite Hrev. now left. }
+             apply (tuple_offsets_lt sigs ps 0 front) in Hin; [|subst ps; rewrite length_gparts; subst sigs; now rewrite map_length|assumption].
+             fold data in Hin. destruct (N.eqb_spec front (len data)) as [Heq|_]; [lia|].
+             rewrite <- Hrev in *. rewrite write_all_framing by assumption. rewrite gwr_gwr. apply f_equal.
+             rewrite <- gwr_gwr. rewrite <- (Hfin data). now rewrite gwr_gwr.
+        * rewrite rev_app_distr. cbn [rev app]. rewrite Hle, N.eqb_refl.
+          rewrite write_all_framing by assumption. rewrite gwr_gwr. apply f_equal.
+          rewrite <- gwr_gwr. rewrite <- (Hfin data). now rewrite gwr_gwr.
   Qed.
 End P.
